@@ -53,6 +53,10 @@ void ob_c04i_take(const ARR<3,2>& a)
 { PIN(a, 3,2);
     { VIEW(v, view::take(a, std::array<int,4>{2,0,-1,2}, 0)); EXPECT_VIEW2("C04.view.take.shape", "C04.view.take.negative_and_repeated_entries", v, 4,2, a(i == 1 ? Z : (size_t)2, j), 0); }
     { VIEW(v, view::take(a, std::array<int,3>{1,0,1}, -1)); EXPECT_VIEW2("C04.view.take.shape", "C04.view.take.negative_axis", v, 3,3, a(i, j == 1 ? Z : (size_t)1), 1); }
+#ifdef VERIF_RT_KIND   /* take with axis None does not build for a constant-shape operand */
+    { VIEW(v, view::take(a, std::array<int,4>{5,0,3,1}, nm::None)); EXPECT_VIEW1("C04.view.take.shape", "C04.view.take.no_axis_takes_from_the_flattened_array", v, 4, a((i == 0 ? (size_t)5 : i == 1 ? Z : i == 2 ? (size_t)3 : (size_t)1) / 2, (i == 0 ? (size_t)5 : i == 1 ? Z : i == 2 ? (size_t)3 : (size_t)1) % 2), 2); }
+    { VIEW(v, view::take(a, std::array<int,3>{-1,2,-4}, nm::None)); EXPECT_VIEW1("C04.view.take.shape", "C04.view.take.no_axis_negative_entries_count_from_the_end_of_the_flattened_array", v, 3, a((i == 0 ? (size_t)5 : i == 1 ? (size_t)2 : (size_t)2) / 2, (i == 0 ? (size_t)5 : i == 1 ? (size_t)2 : (size_t)2) % 2), 3); }
+#endif
 }
 // ---- compress (the condition decides the SHAPE, so it is a constant)
 void ob_c04i_compress(const ARR<3,2>& a)
